@@ -21,7 +21,7 @@ def mk(rows):
 
 
 @strax.takes_config(strax.Option("mp_rows", default=(), track=True), strax.Option("mp_cuts", default=(), track=False),
-                    strax.Option("mp_fault", default=None, track=False))
+                    strax.Option("mp_fault", default=None, track=False), strax.Option("mp_pace", default=None, track=False))
 class MpSrc(strax.Plugin):
     provides = "mpsrc"
     depends_on = ()
@@ -33,10 +33,20 @@ class MpSrc(strax.Plugin):
         return True
 
     def is_ready(self, chunk_i):
+        # mp_pace = {late_chunk, late_by, slow_chunk, slow_by}: a source whose chunk `late_chunk` becomes available
+        # late (live data still being written) and whose chunk `slow_chunk` takes long to compute. Timing only.
+        pace = self.config["mp_pace"]
+        if pace and chunk_i == pace.get("late_chunk"):
+            import time
+            time.sleep(pace["late_by"])
         return chunk_i < len(self.config["mp_cuts"]) - 1
 
     def compute(self, chunk_i):
         _arm(self.config["mp_fault"])
+        pace = self.config["mp_pace"]
+        if pace and chunk_i == pace.get("slow_chunk"):
+            import time
+            time.sleep(pace["slow_by"])
         cuts = self.config["mp_cuts"]
         a = mk(self.config["mp_rows"])
         lo, hi = cuts[chunk_i], cuts[chunk_i + 1]
